@@ -967,3 +967,180 @@ pub fn c16_interrupt_case(ctx: &Ctx, env: &RealEnv, dir: &Path, case: u64, seed:
     rep.nontrivial.insert(fnv(manifest.as_bytes()) ^ (victim as u64) << 3 ^ j as u64);
     rep.sample(mk);
 }
+
+/// C04 at process level: a command that has printed a lot (more than any plausible buffer cap) and then
+/// keeps running still occupies its -j / pool slot until its process has ended.
+pub fn c04_bigout_case(ctx: &Ctx, env: &RealEnv, dir: &Path, case: u64, seed: u64, rep: &mut Report) {
+    let _ = ctx;
+    let mut rng = Rng::new(seed);
+    let n = rng.range(2, 5);
+    let use_pool = rng.chance(1, 2);
+    let j = if use_pool { 4 } else { rng.range(1, 2) };
+    let mut pools = BTreeMap::new();
+    if use_pool {
+        pools.insert("one".to_string(), 1usize);
+    }
+    let tasks: Vec<GTask> = (0..n).map(|i| GTask { name: format!("t{}", i), out: format!("o{}", i), deps: vec![], via_phony: false, pool: if use_pool { Some("one".into()) } else { None }, fails: false, swallows: false }).collect();
+    let mbytes = *rng.pick(&[1usize, 17, 20, 33]);
+    let manifest = gated_manifest(&tasks, &pools, &mut rng, false)
+        // every command is chatty before it blocks: whichever n2 starts first
+        // (lines of digits, about 7 bytes each: one process, no pipeline)
+        .replace("; read x < release/", &format!("; seq 1 {}; read x < release/", mbytes * 1_000_000 / 7));
+    prepare(dir, &tasks, &manifest);
+    let limit = if use_pool { 1 } else { j };
+    let args: Vec<String> = vec!["-j".into(), j.to_string(), "-k".into(), "1000".into()];
+    let mut s = match Session::spawn(env, dir, &args, None) {
+        Ok(s) => s,
+        Err(e) => {
+            rep.inconclusive.push(format!("case {}: {}", case, e));
+            return;
+        }
+    };
+    rep.evaluations += 1;
+    rep.count("chatty_command_cases", 1);
+    let idx: BTreeMap<String, usize> = tasks.iter().enumerate().map(|(i, t)| (t.name.clone(), i)).collect();
+    let mut released: BTreeSet<usize> = BTreeSet::new();
+    let mut worst = 0usize;
+    let mut log = Vec::new();
+    // rounds: wait for `limit` commands executing, hold them for a while (they have long finished
+    // printing), verify that nothing beyond the limit was started, release one
+    loop {
+        let t0 = Instant::now();
+        let mut st: BTreeSet<usize> = BTreeSet::new();
+        let remaining = n - released.len();
+        let want = limit.min(remaining);
+        while t0.elapsed() < Duration::from_secs(30) {
+            s.pump();
+            // (the session buffer only needs the tail)
+            if s.shown.len() > 4_000_000 {
+                let cut = s.shown.len() - 100_000;
+                s.shown.drain(..cut);
+            }
+            st = s.started().iter().filter_map(|n| idx.get(n).copied()).collect();
+            if st.difference(&released).count() >= want || s.exited() {
+                break;
+            }
+            std::thread::sleep(Duration::from_millis(2));
+        }
+        if want == 0 {
+            break;
+        }
+        if st.difference(&released).count() < want {
+            let tail = String::from_utf8_lossy(&s.shown).chars().rev().take(300).collect::<String>().chars().rev().collect::<String>();
+            rep.inconclusive.push(format!("case {}: fewer commands executing than the limit allows; n2 says {:?}", case, tail));
+            s.kill();
+            return;
+        }
+        // hold: long enough for all output to be through the pipe and for a freed slot to be reused
+        let t1 = Instant::now();
+        while t1.elapsed() < Duration::from_millis(1200) {
+            s.pump();
+            if s.shown.len() > 4_000_000 {
+                let cut = s.shown.len() - 100_000;
+                s.shown.drain(..cut);
+            }
+            std::thread::sleep(Duration::from_millis(5));
+        }
+        st = s.started().iter().filter_map(|n| idx.get(n).copied()).collect();
+        let executing: Vec<usize> = st.difference(&released).copied().collect();
+        worst = worst.max(executing.len());
+        log.push(format!("executing {:?}", executing.iter().map(|&i| tasks[i].name.clone()).collect::<Vec<_>>()));
+        if executing.len() > limit {
+            let text = String::from_utf8_lossy(&s.shown).chars().rev().take(600).collect::<String>().chars().rev().collect::<String>();
+            rep.violation(
+                "limit-exceeded-by-live-processes",
+                &format!("{} commands are executing (announced, not released, blocked on their FIFO) with {}", executing.len(), if use_pool { "a pool of depth 1".to_string() } else { format!("-j {}", j) }),
+                J::obj().with("case", J::i(case)).with("manifest", J::s(&manifest)).with("steps", J::strs(log.iter().cloned())).with("output_tail", J::s(text)),
+            );
+            s.kill();
+            return;
+        }
+        let i = executing[0];
+        s.release(&tasks[i].name);
+        released.insert(i);
+        let t2 = Instant::now();
+        while t2.elapsed() < Duration::from_secs(10) && !dir.join(&tasks[i].out).exists() {
+            s.pump();
+            std::thread::sleep(Duration::from_millis(2));
+        }
+    }
+    let end = s.wait_exit(Duration::from_secs(30));
+    if end.is_none() {
+        rep.inconclusive.push(format!("case {}: n2 did not end after the last release", case));
+        return;
+    }
+    rep.max("max_mbytes_printed_by_one_command", mbytes as u64);
+    rep.nontrivial.insert(fnv(manifest.as_bytes()) ^ mbytes as u64);
+}
+
+/// C05 at process level: a command that cannot even be started (its text is longer than the kernel takes
+/// as one argument) is a failed command: exit status non-zero, nothing recorded for it, the others unharmed.
+pub fn c05_spawn_failure_case(ctx: &Ctx, env: &RealEnv, dir: &Path, case: u64, seed: u64, rep: &mut Report) {
+    let _ = ctx;
+    let mut rng = Rng::new(seed);
+    let n = rng.range(1, 4);
+    let pools = BTreeMap::new();
+    let tasks = gen_tasks(&mut rng, n, &pools, 0);
+    let mut manifest = gated_manifest(&tasks, &pools, &mut rng, false);
+    let big = 131_072 + rng.below(4096);
+    manifest.push_str(&format!("rule huge\n  command = : {}; : > ohuge\nbuild ohuge: huge\n", "x".repeat(big)));
+    prepare(dir, &tasks, &manifest);
+    let j = rng.range(2, 4);
+    let args: Vec<String> = vec!["-j".into(), j.to_string(), "-k".into(), "1000".into()];
+    let mut exits = Vec::new();
+    for round in 0..2 {
+        // (started/ is kept between the rounds; outputs decide what the second round still runs)
+        let _ = std::fs::remove_dir_all(dir.join("started"));
+        std::fs::create_dir_all(dir.join("started")).unwrap();
+        let mut s = match Session::spawn(env, dir, &args, None) {
+            Ok(s) => s,
+            Err(e) => {
+                rep.inconclusive.push(format!("case {}: {}", case, e));
+                return;
+            }
+        };
+        rep.evaluations += 1;
+        let idx: BTreeMap<String, usize> = tasks.iter().enumerate().map(|(i, t)| (t.name.clone(), i)).collect();
+        let mut released: BTreeSet<usize> = BTreeSet::new();
+        let t0 = Instant::now();
+        // let every command through a little after it announces itself (so that some are executing
+        // while the huge one is attempted)
+        while !s.exited() && t0.elapsed() < Duration::from_secs(40) {
+            s.pump();
+            let st: BTreeSet<usize> = s.started().iter().filter_map(|n| idx.get(n).copied()).collect();
+            for &i in st.difference(&released.clone()) {
+                std::thread::sleep(Duration::from_millis(rng.below(40) as u64));
+                s.release(&tasks[i].name);
+                released.insert(i);
+            }
+            std::thread::sleep(Duration::from_millis(2));
+        }
+        let end = s.wait_exit(Duration::from_secs(5));
+        let text = String::from_utf8_lossy(&s.shown).chars().filter(|c| *c != 'x').take(1500).collect::<String>();
+        let mk = || J::obj().with("case", J::i(case)).with("round", J::i(round)).with("j", J::i(j)).with("gated_steps", J::i(n)).with("command_bytes", J::i(big)).with("output_without_x", J::s(&text));
+        let Some((exit, sig)) = end else {
+            rep.violation("spawn-failure-hangs", "n2 still running 45 s after every command was let through", mk());
+            return;
+        };
+        exits.push((exit, sig));
+        if dir.join("ohuge").exists() {
+            rep.inconclusive.push(format!("case {}: the kernel accepted a {}-byte argument", case, big));
+            return;
+        }
+        if sig.is_some() {
+            rep.violation("spawn-failure-kills-n2", &format!("n2 died of signal {:?}", sig), mk());
+            return;
+        }
+        if exit == Some(0) {
+            rep.violation("exit-zero-not-up-to-date", "a command could not be started (its output does not exist) and n2 exited 0", mk());
+            return;
+        }
+        let missing: Vec<String> = tasks.iter().filter(|t| !dir.join(&t.out).exists()).map(|t| t.out.clone()).collect();
+        if !missing.is_empty() {
+            rep.violation("unblocked-step-not-run", &format!("steps independent of the unstartable command were not brought up to date: {:?}", missing), mk());
+            return;
+        }
+    }
+    rep.count("spawn_failure_cases", 1);
+    rep.nontrivial.insert(fnv(manifest.as_bytes()));
+}
